@@ -194,8 +194,18 @@ class MrpEnv(Env):
         return write_variant(len(s)) + s
 
     def call(self, w, opts):
-        m = self.pb.ProtocolMessage()
-        m.type = self.types[opts.get("type", 0)]
+        src = getattr(self, "msgs", {}).get(opts.get("reuse"))
+        if src is not None and opts.get("copy"):
+            m = self.pb.ProtocolMessage()      # a message built from an earlier one
+            m.CopyFrom(src)
+        elif src is not None:
+            m = src                            # the caller re-sends the very same object (retry loop)
+        else:
+            m = self.pb.ProtocolMessage()
+            m.type = self.types[opts.get("type", 0)]
+        if not hasattr(self, "msgs"):
+            self.msgs = {}
+        self.msgs[w] = m
         return self.proto.send_and_receive(m, generate_identifier=not opts.get("typed", False),
                                            timeout=opts.get("timeout", 100))
 
@@ -219,6 +229,17 @@ class MrpEnv(Env):
 
 
 # ----------------------------------------------------------------------------- Companion
+def comp_x(m, wire):
+    """the "_x" a Companion frame carries: the transaction id of request m["for"] (it is the answer), of
+    request m["xfor"] (the device's own counter merely COINCIDES with it - events and requests from the device
+    carry an _x too), a literal m["xid"], or none"""
+    for k in ("for", "xfor"):
+        if m.get(k) is not None:
+            v = wire.get(m[k], wire.get(str(m[k])))
+            return v
+    return m.get("xid")
+
+
 class CompanionEnv(Env):
     name = "companion"
 
@@ -268,12 +289,11 @@ class CompanionEnv(Env):
             body = [1, 2]
         else:
             body = {"tag": m["tag"]}
+            x = comp_x(m, self.wire)
+            if x is not None:
+                body["_x"] = x
             if kind == "resp":
                 body["_t"] = 3
-                if m.get("for") is not None:
-                    body["_x"] = self.wire.get(m["for"])
-                elif m.get("xid") is not None:
-                    body["_x"] = m["xid"]
             elif kind == "event":
                 body["_t"] = 1
                 body["_i"] = "evt"
@@ -766,9 +786,7 @@ def model_events(case):
                     body = "BNotDict"
                 else:
                     tt = {"resp": 3, "event": 1}.get(kind, m.get("t") if kind == "other" else None)
-                    x = None
-                    if kind == "resp":
-                        x = case.obs["wire"].get(str(m["for"])) if m.get("for") is not None else m.get("xid")
+                    x = comp_x(m, case.obs["wire"])
                     has_ic = kind == "event" and not m.get("no_c")
                     body = "(BDict %s %s %s %s %s)" % (common.copt(tt, common.cN), common.copt(x, common.cN),
                                                        common.cbool(has_ic), common.cN(m["tag"]),
@@ -896,7 +914,7 @@ def interleavings(n, fifo=False):
     return res
 
 
-def unsol_msg(t, rng, tag, variant=0):
+def unsol_msg(t, rng, tag, variant=0, xfor=None, ukind=None):
     if t == "mrp":
         v = variant % 3
         if v == 0:
@@ -905,13 +923,21 @@ def unsol_msg(t, rng, tag, variant=0):
             return {"tag": tag, "type": 1}
         return {"tag": tag, "type": 2, "ident": 3}
     if t == "companion":
-        return {"tag": tag, "kind": "event", "ft": (7, 8, 9)[variant % 3]}
+        m = {"tag": tag, "kind": "event", "ft": (7, 8, 9)[variant % 3]}
+        if xfor is not None:
+            m["xfor"] = xfor            # its "_x" equals the transaction id of request xfor
+            if ukind == "other":
+                m = {"tag": tag, "kind": "other", "ft": m["ft"], "t": 2, "xfor": xfor}   # a request from the device
+        elif ukind == "xid":
+            m["xid"] = 5                # an "_x" that belongs to nobody
+        return m
     if t == "rtsp":
         return {"tag": tag, "cseq": None if variant % 2 else 900 + tag, "code": 200}
     return {"tag": tag, "code": 200}
 
 
-def build(t, base, timeout_w=None, timeout_pos=None, unsol_pos=None, variant=0, rng=None):
+def build(t, base, timeout_w=None, timeout_pos=None, unsol_pos=None, variant=0, rng=None, xfor=None, ukind=None,
+          reuse=None):
     """base: list of ("q", i) / ("a", i).  Returns a script."""
     script = []
     tag = 1
@@ -919,7 +945,7 @@ def build(t, base, timeout_w=None, timeout_pos=None, unsol_pos=None, variant=0, 
     for pos, (kind, i) in enumerate(base + [("end", 0)]):
         if unsol_pos == pos:
             if not (t == "http" and _http_busy(script)):
-                script.append(["msg", [unsol_msg(t, rng, 90, variant)]])
+                script.append(["msg", [unsol_msg(t, rng, 90, variant, xfor, ukind)]])
         if timeout_pos == pos:
             script.append(["timeout"])
         if kind == "q":
@@ -929,6 +955,11 @@ def build(t, base, timeout_w=None, timeout_pos=None, unsol_pos=None, variant=0, 
             if t == "mrp" and variant % 4 == 3 and i == 0:
                 opts["typed"] = True
                 opts["type"] = 1 if variant % 8 == 7 else 2
+            if t == "mrp" and reuse is not None and i > 0 and not opts.get("typed") \
+                    and not (variant % 4 == 3):
+                opts["reuse"] = 0 if reuse == "first" else i - 1      # the caller sends the same message again
+                if reuse == "copy":
+                    opts["copy"] = True
             script.append(["req", i, opts])
         elif kind == "a":
             m = {"tag": 10 + i, "for": i}
@@ -977,6 +1008,28 @@ def exhaustive_scripts(t, nmax):
             if t == "rtsp":
                 for tp in range(1, L + 1):
                     out.append(build(t, base, timeout_pos=tp))
+            if t == "companion":
+                # an event / a request from the device / an event with a foreign id, whose "_x" equals the
+                # transaction id of request x (or of nobody), at every position
+                for up in range(L + 1):
+                    for x in range(n):
+                        out.append(build(t, base, unsol_pos=up, variant=up, xfor=x))
+                        out.append(build(t, base, unsol_pos=up, variant=up, xfor=x, ukind="other"))
+                    out.append(build(t, base, unsol_pos=up, variant=up, ukind="xid"))
+                for w in range(n):
+                    qpos, apos = base.index(("q", w)), base.index(("a", w))
+                    for tp in range(qpos + 1, apos + 1):
+                        for up in (tp, apos + 1):
+                            out.append(build(t, base, timeout_w=w, timeout_pos=tp, unsol_pos=up, variant=up, xfor=w))
+            if t == "mrp" and n > 1:
+                # the caller re-sends the same message object (or a copy of an earlier message): while the
+                # earlier request is still outstanding, after it was answered, after it timed out
+                for reuse in ("first", "prev", "copy"):
+                    out.append(build(t, base, reuse=reuse))
+                    for w in range(n):
+                        qpos, apos = base.index(("q", w)), base.index(("a", w))
+                        for tp in range(qpos + 1, apos + 1):
+                            out.append(build(t, base, timeout_w=w, timeout_pos=tp, reuse=reuse))
     # de-duplicate
     seen = set()
     res = []
@@ -1028,6 +1081,12 @@ def random_script(t, rng, nmax):
             if t == "mrp" and rng.random() < 0.25:
                 opts["typed"] = True
                 opts["type"] = rng.choice((1, 2))
+            elif t == "mrp" and issued and rng.random() < 0.35:
+                plain = [j for j in issued if not script_opts(script, j).get("typed")]
+                if plain:
+                    opts["reuse"] = rng.choice(plain)
+                    if rng.random() < 0.4:
+                        opts["copy"] = True
             if t == "companion" and rng.random() < 0.2:
                 opts = {"auth": rng.choice((3, 4, 5, 6)), "timeout": opts.get("timeout", 60)}
             script.append(["req", nreq, opts])
@@ -1066,7 +1125,9 @@ def random_script(t, rng, nmax):
                 continue
             v = rng.randint(0, 9)
             m = unsol_msg(t, rng, newtag(), v)
-            if t == "companion" and rng.random() < 0.5:
+            if t == "companion" and issued and rng.random() < 0.4:
+                m = unsol_msg(t, rng, m["tag"], v, xfor=rng.choice(issued), ukind=rng.choice((None, None, "other")))
+            elif t == "companion" and rng.random() < 0.5:
                 m = rng.choice([
                     {"tag": m["tag"], "kind": "notdict", "ft": 8},
                     {"tag": m["tag"], "kind": "event", "ft": 8, "no_c": True},
